@@ -20,6 +20,8 @@ ID = 'C14'
 LEVEL = 'exploration'
 BIG = stores.Layout(('seq', 0, 2004), True, False)
 FRAMINGS = ('rtu', 'ascii', 'binary', 'tls')
+FRAMING2 = dict(clients.FRAMING)
+FRAMING2.update({'rtu-over-tcp:subclass': 'rtu', 'ascii-over-tcp:subclass': 'ascii'})
 
 
 def requests(tier):
@@ -123,7 +125,7 @@ def e2e_requests():
 
 
 def run_e2e(acc, kind, m, reply_kind):
-    framing = clients.FRAMING[kind]
+    framing = FRAMING2[kind]
     clock = clients.VClock()
     reply = server_reply(m) if reply_kind == 'normal' else bytes([m['fc'] | 0x80, 2])
     frame = adu.build(framing, 1, reply, tid=1)
@@ -134,7 +136,7 @@ def run_e2e(acc, kind, m, reply_kind):
     label = '%s' % bind.cls_name(m).replace('Request', '')
     wit = dict(part='e2e', client=kind, request=pdu.encode(m).hex(), reply=reply_kind)
     with clients.Patched(clock, line):
-        c = clients.make_client(kind, line, retries=0)
+        c = make(kind, line)
         clients.hook_logical_reads(c, line, lambda size: 'full')
         t0 = clock.t
         try:
@@ -160,13 +162,82 @@ def run_e2e(acc, kind, m, reply_kind):
     acc.add('nontrivial', (kind, label, len(frame)))
 
 
+def run_history(acc, kind, behaviours):
+    """several transactions on ONE client: each peer behaviour is normal | exception | silent.  Every reply that
+    arrives must be read exactly (no short stop, no waiting), except in the transaction right after a silent one,
+    where this client deliberately reads the whole predicted frame at once (base behaviour, not judged)."""
+    framing = FRAMING2[kind]
+    clock = clients.VClock()
+    state = dict(i=0)
+    frames = []
+
+    def peer(line, data):
+        b = behaviours[state['i']]
+        m = dict(kind='req', fc=3, address=3, count=10)
+        if b == 'silent':
+            frames.append(None)
+            return
+        reply = server_reply(m) if b == 'normal' else bytes([0x83, 2])
+        f = adu.build(framing, 1, reply, tid=state['i'] + 1)
+        frames.append(f)
+        line.push(f)
+    line = clients.Line(clock, peer)
+    wit = dict(part='history', client=kind, behaviours=list(behaviours))
+    with clients.Patched(clock, line):
+        c = make(kind, line)
+        clients.hook_logical_reads(c, line, lambda size: 'full')
+        for i, b in enumerate(behaviours):
+            state['i'] = i
+            line.read_sizes = []
+            n0 = len(frames)
+            t0 = clock.t
+            try:
+                r = c.execute(bind.to_obj(dict(kind='req', fc=3, address=3, count=10, unit=1)))
+            except Exception as e:   # noqa
+                acc.violation('C14/ReadHoldingRegisters/%s/history/raise:%s' % (framing, type(e).__name__), wit, repr(e)[:100], kind)
+                return
+            waited = clock.t - t0
+            acc.inc('evaluations')
+            f = frames[n0] if len(frames) > n0 else None
+            if f is None or (i > 0 and behaviours[i - 1] == 'silent'):
+                continue
+            asked = sum(s for s in line.read_sizes if s)
+            if asked != len(f) or None in line.read_sizes or waited >= 2.9 or not hasattr(r, 'function_code'):
+                acc.violation('C14/ReadHoldingRegisters/%s/%s/reads-after-history' % (framing, 'exception' if b == 'exception' else 'normal'),
+                              dict(wit, step=i), 'transaction %d (%s reply of %d bytes): the client asked for %r and waited %.1f s'
+                              % (i, b, len(f), line.read_sizes, waited), kind)
+                return
+    acc.add('nontrivial', (kind, 'history', tuple(behaviours)))
+
+
+def make(kind, line):
+    """client of `kind`; 'x:subclass' uses a trivial subclass of the stock framer"""
+    base, _, sub = kind.partition(':')
+    if not sub:
+        return clients.make_client(base, line, retries=0)
+    from pymodbus.client.sync import ModbusTcpClient
+    from pymodbus.transaction import ModbusRtuFramer, ModbusAsciiFramer, ModbusBinaryFramer
+    stock = {'rtu-over-tcp': ModbusRtuFramer, 'ascii-over-tcp': ModbusAsciiFramer, 'binary-over-tcp': ModbusBinaryFramer}[base]
+
+    class Traced(stock):         # what an application does to trace or extend a framer
+        pass
+    c = ModbusTcpClient('peer', framer=Traced, retries=0, timeout=3)
+    c.socket = clients.FakeSocket(line)
+    return c
+
+
 def shard_e2e(args):
     kind, = args
     acc = Acc()
     for m in e2e_requests():
         for rk in ('normal', 'exception'):
             run_e2e(acc, kind, m, rk)
-    acc.sample(dict(client=kind, example='read 19 coils: frame %s' % adu.build(clients.FRAMING[kind], 1, server_reply(dict(kind='req', fc=1, address=1, count=19))).hex()))
+    import itertools
+    for hist in itertools.product(('normal', 'exception', 'silent'), repeat=3):
+        run_history(acc, kind, hist)
+    for hist in (('silent', 'normal', 'exception'), ('silent', 'normal', 'normal', 'exception'), ('silent', 'silent', 'normal', 'exception')):
+        run_history(acc, kind, hist)
+    acc.sample(dict(client=kind, example='read 19 coils: frame %s' % adu.build(FRAMING2[kind], 1, server_reply(dict(kind='req', fc=1, address=1, count=19))).hex()))
     return acc
 
 
@@ -176,7 +247,7 @@ def shard(args):
 
 def run(tier, seed):
     parts = 12
-    shards = [('static', k, parts) for k in range(parts)] + [('e2e', k) for k in ('serial-rtu', 'serial-ascii', 'serial-binary', 'rtu-over-tcp')]
+    shards = [('static', k, parts) for k in range(parts)] + [('e2e', k) for k in ('serial-rtu', 'serial-ascii', 'serial-binary', 'rtu-over-tcp', 'rtu-over-tcp:subclass', 'ascii-over-tcp:subclass')]
     acc = par.run_shards(shard, shards)
     return dict(acc=acc, level=LEVEL,
                 coverage=dict(
@@ -191,7 +262,10 @@ def run(tier, seed):
 
 def replay(w):
     acc = Acc()
-    m = pdu.decode('req', bytes.fromhex(w['request']))
+    m = pdu.decode('req', bytes.fromhex(w['request'])) if 'request' in w else None
+    if w['part'] == 'history':
+        run_history(acc, w['client'], w['behaviours'])
+        return bool(acc.violations), '\n'.join('%s: %s' % (v['sig'], v['msg']) for v in acc.violations) or 'no violation'
     if w['part'] == 'e2e':
         run_e2e(acc, w['client'], m, w['reply'])
     else:
